@@ -43,6 +43,10 @@ fn attr(a: &Attribute) -> String {
     }
 }
 
+pub fn attrs_sexp(a: &Attributes) -> String {
+    attrs(a)
+}
+
 fn attrs(a: &Attributes) -> String {
     format!(
         "(attrs{})",
